@@ -76,34 +76,40 @@ def seq_enc(lib, p11drv, seed, idx, codecdrv):
         def L():
             ctr[0] += 1
             return uniq(6) + hexs('_%d' % ctr[0])
+        def P(line):
+            return p.op(line.replace(' 2=b:1', ' ' + P.pv))
+        P.pv = '2=b:1'
         for _ in range(rng.randint(5, 9)):
             path = rng.choice(['create_data', 'create_key', 'create_rsa', 'create_dsa', 'create_dh', 'genkey', 'genpair', 'unwrap', 'derive', 'upgrade', 'setattr', 'setpin', 'sopin', 'cert'])
             tok = 1 if rng.random() < 0.85 else 0
+            P.pv = rng.choice(['2=b:1'] * 4 + ['2=x:02', '2=x:80', '2=x:ff'])    # CKA_PRIVATE true is any non-zero CK_BBOOL
+            # CKA_PRIVATE true is any non-zero CK_BBOOL: the canonical 1 mostly, sometimes 2 / 0x80 / 0xff
+            pv = rng.choice(['2=b:1'] * 4 + ['2=x:02', '2=x:80', '2=x:ff'])
             if path == 'create_data':
-                p.op('create %s 0=u:0 1=b:%d 2=b:1 3=x:%s 0x10=x:%s 0x11=x:%s 0x12=x:%s' % (s, tok, L(), uniq(7), uniq(rng.choice([5, 16, 33, 200, 3000])), uniq(5)))
+                P('create %s 0=u:0 1=b:%d 2=b:1 3=x:%s 0x10=x:%s 0x11=x:%s 0x12=x:%s' % (s, tok, L(), uniq(7), uniq(rng.choice([5, 16, 33, 200, 3000])), uniq(5)))
             elif path == 'create_key':
-                p.op('create %s 0=u:4 0x100=u:%s 1=b:%d 2=b:1 3=x:%s 0x102=x:%s 0x11=x:%s 0x162=b:1 0x103=b:0' % (s, rng.choice(['0x1f', '0x10']), tok, L(), uniq(6), uniq(rng.choice([16, 24, 32]))))
+                P('create %s 0=u:4 0x100=u:%s 1=b:%d 2=b:1 3=x:%s 0x102=x:%s 0x11=x:%s 0x162=b:1 0x103=b:0' % (s, rng.choice(['0x1f', '0x10']), tok, L(), uniq(6), uniq(rng.choice([16, 24, 32]))))
             elif path == 'create_rsa':
-                p.op('create %s 0=u:3 0x100=u:0 1=b:%d 2=b:1 3=x:%s 0x120=x:%s 0x122=x:%s 0x123=x:%s 0x124=x:%s 0x125=x:%s 0x126=x:%s 0x127=x:%s 0x128=x:%s 0x103=b:0 0x162=b:1'
+                P('create %s 0=u:3 0x100=u:0 1=b:%d 2=b:1 3=x:%s 0x120=x:%s 0x122=x:%s 0x123=x:%s 0x124=x:%s 0x125=x:%s 0x126=x:%s 0x127=x:%s 0x128=x:%s 0x103=b:0 0x162=b:1'
                      % (s, tok, L(), be(int(k['n'], 16)), be(int(k['e'], 16)), be(int(k['d'], 16)), be(int(k['p'], 16)), be(int(k['q'], 16)), be(int(k['dp'], 16)), be(int(k['dq'], 16)), be(int(k['qinv'], 16))))
             elif path == 'create_dsa':
-                p.op('create %s 0=u:3 0x100=u:1 1=b:%d 2=b:1 3=x:%s 0x130=x:%s 0x131=x:%s 0x132=x:%s 0x11=x:%s 0x103=b:0 0x162=b:1' % (s, tok, L(), 'c1' + uniq(127), 'd1' + uniq(19), uniq(64), uniq(20)))
+                P('create %s 0=u:3 0x100=u:1 1=b:%d 2=b:1 3=x:%s 0x130=x:%s 0x131=x:%s 0x132=x:%s 0x11=x:%s 0x103=b:0 0x162=b:1' % (s, tok, L(), 'c1' + uniq(127), 'd1' + uniq(19), uniq(64), uniq(20)))
             elif path == 'create_dh':
-                p.op('create %s 0=u:3 0x100=u:2 1=b:%d 2=b:1 3=x:%s 0x130=x:%s 0x132=x:%s 0x11=x:%s 0x103=b:0 0x162=b:1' % (s, tok, L(), 'c1' + uniq(127), uniq(16), uniq(24)))
+                P('create %s 0=u:3 0x100=u:2 1=b:%d 2=b:1 3=x:%s 0x130=x:%s 0x132=x:%s 0x11=x:%s 0x103=b:0 0x162=b:1' % (s, tok, L(), 'c1' + uniq(127), uniq(16), uniq(24)))
             elif path == 'cert':
-                p.op('create %s 0=u:1 0x80=u:0 1=b:%d 2=b:1 3=x:%s 0x101=x:%s 0x11=x:%s' % (s, tok, L(), '300b' + uniq(11), '3082' + uniq(40)))
+                P('create %s 0=u:1 0x80=u:0 1=b:%d 2=b:1 3=x:%s 0x101=x:%s 0x11=x:%s' % (s, tok, L(), '300b' + uniq(11), '3082' + uniq(40)))
             elif path == 'genkey':
-                p.op('genkey %s 0x1080 0=u:4 0x100=u:0x1f 0x161=u:32 1=b:%d 2=b:1 3=x:%s 0x162=b:1 0x103=b:0' % (s, tok, L()))
+                P('genkey %s 0x1080 0=u:4 0x100=u:0x1f 0x161=u:32 1=b:%d 2=b:1 3=x:%s 0x162=b:1 0x103=b:0' % (s, tok, L()))
             elif path == 'genpair':
-                p.op('genpair %s 0x1040 0x180=x:06082a8648ce3d030107 1=b:%d 2=b:1 3=x:%s -- 1=b:%d 2=b:1 3=x:%s 0x103=b:0 0x162=b:1' % (s, tok, L(), tok, L()))
+                P('genpair %s 0x1040 0x180=x:06082a8648ce3d030107 1=b:%d 2=b:1 3=x:%s -- 1=b:%d 2=b:1 3=x:%s 0x103=b:0 0x162=b:1' % (s, tok, L(), tok, L()))
             elif path == 'unwrap' and wk:
-                src = p.op('create %s 0=u:4 0x100=u:0x1f 1=b:0 2=b:1 0x11=x:%s 0x162=b:1 0x103=b:0' % (s, uniq(32))).get('h')
+                src = P('create %s 0=u:4 0x100=u:0x1f 1=b:0 2=b:1 0x11=x:%s 0x162=b:1 0x103=b:0' % (s, uniq(32))).get('h')
                 if src:
                     bl = p.op('wrap %s 0x2109 %s %s 600' % (s, wk, src)).get('out')
                     if bl:
-                        p.op('unwrap %s 0x2109 %s %s 0=u:4 0x100=u:0x1f 1=b:%d 2=b:1 3=x:%s 0x162=b:1 0x103=b:0' % (s, wk, bl, tok, L()))
+                        P('unwrap %s 0x2109 %s %s 0=u:4 0x100=u:0x1f 1=b:%d 2=b:1 3=x:%s 0x162=b:1 0x103=b:0' % (s, wk, bl, tok, L()))
             elif path == 'derive' and wk:
-                p.op('derive %s 0x1104:sd:%s %s 0=u:4 0x100=u:0x10 0x161=u:32 1=b:%d 2=b:1 3=x:%s 0x162=b:1 0x103=b:0' % (s, uniq(32), wk, tok, L()))
+                P('derive %s 0x1104:sd:%s %s 0=u:4 0x100=u:0x10 0x161=u:32 1=b:%d 2=b:1 3=x:%s 0x162=b:1 0x103=b:0' % (s, uniq(32), wk, tok, L()))
             elif path == 'upgrade':
                 pub = p.op('create %s 0=u:0 1=b:%d 2=b:0 3=x:%s 0x11=x:%s' % (s, tok, L(), uniq(24))).get('h')
                 if pub:
